@@ -105,6 +105,13 @@ pub enum Action {
     Sleep { us: u64 },
 }
 
+impl ScriptItem {
+    /// calls that a valid program would not make (C16 inserts them and expects no effect)
+    pub fn action_is_misuse(&self) -> bool {
+        matches!(self.action, Action::AdvanceWithoutInput | Action::AddInputFor { .. } | Action::NetStats { .. } | Action::SetDelay { .. } | Action::Disconnect { .. })
+    }
+}
+
 #[derive(Clone, Debug, Serialize, Deserialize)]
 pub struct ScriptItem {
     pub round: i32,
